@@ -127,6 +127,10 @@ def cases(ctx):
         prm = rng.choice(ps)
         if op == "FuzzyWeightedUnion" and any(d in ("int8", "int16") for d in dts) and rng.random() < 0.6:
             prm = {"Weights": [float(rng.choice([60, 40, 30, 100, 7])) for _ in range(n)]}      # whole-valued decimals: decimals all the same
+        if r % 10 == 5:
+            # crisp layers of one narrow whole-number type, whole-valued decimal weights whose sum does not fit that type
+            dts = [rng.choice(["int8", "int8", "int16"])] * n
+            op, prm = "FuzzyWeightedUnion", {"Weights": [float(w_) * (300 if dts[0] == "int16" else 1) for w_ in [100, 60, 40, 30][:n]]}
         if r % 10 == 0:
             # crisp whole-number layers only, weights that are not whole numbers
             op, prm = "FuzzyWeightedUnion", {"Weights": [rng.choice([1.5, 0.5, 0.25, 0.75, 2.5]) for _ in range(n)]}
